@@ -18,9 +18,13 @@ class Walker:
         self.inits = {}
         self.shape_ids = set()
         self.lambdas = {}
-        for p in fn.get("params", []):
+        self.param_pos = {}
+        for i_, p in enumerate(fn.get("params", [])):
             if "NiShape" in (p.get("ct") or p.get("t") or ""):
                 self.shape_ids.add(p["id"])
+            elif fn.get("lambda_parent"):
+                self.param_pos[p["id"]] = "<arg%d>" % i_  # helper lambdas of the two walkers may name their parameters differently
+        self.inner_atoms = {}  # id(call node of a helper lambda) -> guard atoms the lambda itself puts in front of the slot
         for n in walk(fn["body"]):
             if n["k"] == "Decl":
                 for v in n.get("vars", []):
@@ -46,6 +50,8 @@ class Walker:
         if k == "Ref":
             if e.get("id") in self.shape_ids:
                 return "<shape>"
+            if e.get("id") in self.param_pos:
+                return self.param_pos[e["id"]]
             if e.get("id") in self.inits:
                 return self.expand(self.inits[e["id"]], depth + 1)
             return e["name"]
@@ -103,12 +109,25 @@ class Walker:
                 s = self.slot_of(n["args"][0])
                 if s and any(x["k"] == "OpCall" and x.get("op") == "()" for x in walk(n["args"][1])):
                     sites.append((n, s))
-            if n["k"] == "OpCall" and n.get("op") == "()" and n.get("args") and is_node(n["args"][0]) and \
-                    n["args"][0]["k"] == "Ref" and n["args"][0].get("id") in self.lambdas and len(n["args"]) >= 2:
-                lam = F.fns.get(self.lambdas[n["args"][0]["id"]])
-                if lam and self._lambda_touches_slot(lam):
+            if n["k"] == "OpCall" and n.get("op") == "()" and n.get("args") and is_node(n["args"][0]) and len(n["args"]) >= 2:
+                lam = F.fns.get(n.get("fid")) if n.get("fid") in F.fns and F.fns[n["fid"]].get("lambda_parent") else None
+                if lam is None and n["args"][0]["k"] == "Ref" and n["args"][0].get("id") in self.lambdas:
+                    lam = F.fns.get(self.lambdas[n["args"][0]["id"]])
+                if lam and self._param_slot_helper(lam):
+                    # a helper that cleans / hands out the string slot it is given: the slot is the argument
+                    s_ = self.slot_of({"k": "Call", "short": "get", "recv": n["args"][1], "args": []})
+                    if s_:
+                        sites.append((n, s_))
+                elif lam and self._lambda_touches_slot(lam):
                     a = n["args"][1]
                     sites.append((n, "via " + self._typed_chain(a)))
+                    inner = Walker(F, lam, self.kind).run()
+                    sets = [atoms for lst in inner.values() for atoms, _ in lst]
+                    if sets:
+                        common = set(sets[0])
+                        for x in sets[1:]:
+                            common &= x
+                        self.inner_atoms[id(n)] = frozenset(common)
         ids = {id(n): s for n, s in sites}
         col = flow.Collect(F, fn, lambda n: id(n) in ids)
         saved = flow.KEYNODE
@@ -126,15 +145,35 @@ class Walker:
                 for f in (st or ()):
                     if f[0] == "G" and f[2] is True:
                         node = registry.get(f[1])
-                        if is_node(node):
+                        if is_node(node) and not (node["k"] == "Binary" and node["op"] == "&&"):  # its conjuncts are facts of their own
                             a.add(self.expand(node))
                 atoms = a if atoms is None else (atoms & a)
-            out.setdefault(ids[id(n)], []).append((frozenset(atoms or ()), n))
+            out.setdefault(ids[id(n)], []).append((frozenset(atoms or ()) | self.inner_atoms.get(id(n), frozenset()), n))
         return out
 
     def _lambda_touches_slot(self, lam):
         for n in walk(lam["body"]):
             if n["k"] == "Call" and n.get("short") == "get" and is_node(n.get("recv")) and n["recv"]["k"] == "Member":
+                return True
+            if n["k"] == "OpCall" and n.get("op") == "()" and len(n.get("args", [])) >= 2 and is_node(n["args"][1]) and \
+                    n["args"][1]["k"] == "Member" and n.get("fid") in self.F.fns and self._param_slot_helper(self.F.fns[n["fid"]]):
+                return True
+        return False
+
+    def _param_slot_helper(self, lam):
+        """does the helper clean (kind trim) / hand out (kind access) the `.get()` of one of its own parameters?"""
+        pids = {p["id"] for p in lam.get("params", [])}
+
+        def on_param(e):
+            while is_node(e) and (e["k"] == "Cast" or (e["k"] == "Construct" and len(e.get("args", [])) == 1)):
+                e = e["e"] if e["k"] == "Cast" else e["args"][0]
+            return is_node(e) and e["k"] == "Call" and e.get("short") == "get" and is_node(e.get("recv")) and \
+                e["recv"]["k"] == "Ref" and e["recv"].get("id") in pids
+
+        for n in walk(lam.get("body") or {}):
+            if self.kind == "trim" and n["k"] == "OpCall" and n.get("op") == "=" and len(n.get("args", [])) == 2 and on_param(n["args"][0]):
+                return True
+            if self.kind == "access" and n["k"] == "Call" and n.get("short") == "push_back" and n.get("args") and on_param(n["args"][0]):
                 return True
         return False
 
